@@ -194,6 +194,15 @@ reg("C38", "wf+ctl", "differential monitor on real sub-schedulers with database 
     "cache_scope and check_valid varied over repeated executions on one file database; outcomes are compared with the "
     "reference interpreter, job ancestry / execution ids are read from the database, and check_cache is wrapped to "
     "see which cache result kind is used for the subrun task.", "Local executors; shared SQLite file via forwarded config.")
+reg("C10", "threads", "history monitor on the five real executor classes with in-process API fakes under sys.monitoring-driven preemption",
+    "The real Docker / AWS Batch / Kubernetes / GCP Batch / AWS Glue executors run with their real monitor, arrayer and "
+    "submission threads against a fake API that completes every job after a fixed number of polls; a recording scheduler "
+    "notes done_job / reject_job.  One preemption is placed at every executed statement line of the monitor-side and "
+    "submit-side methods while the other side acts, plus chained-submission stress with seeded yields.  Oracle: each "
+    "submitted job reported exactly once, no reject_job(None, ...); a lost job is decided structurally (submit returned, job "
+    "still pending, no monitor thread alive).",
+    "Line-granular preemption; API failures not injected; jobs are not terminal before registration finished.")
+
 reg("C11", "threads", "history monitor on the real JobArrayer and its monitor thread under sys.monitoring-driven preemption",
     "The real JobArrayer runs with its real monitor thread; jobs carry unique ids and the submit / on_error callbacks "
     "record a hand-off history.  One preemption is placed at every statement line (1st..3rd arrival) of the monitor-side "
